@@ -161,6 +161,10 @@ func backpressureSetup(s *rt.Sim, tier string) func() {
 		}
 		ep.p.Start()
 		m.Start()
+		// background traffic on its own protocol id, as a live peer's keep-alive would produce: an
+		// idle muxer gives up after 120 s without a byte, which is not this scenario's subject and
+		// used to make every "no error was reported" outcome inconclusive
+		peer.keepAlive(m, peerResp)
 		if variant == 2 {
 			for i := 0; i < 5; i++ {
 				_ = ep.p.SendMessage(mkRaw(0, 0, 12))
@@ -264,7 +268,14 @@ func backpressureSetup(s *rt.Sim, tier string) func() {
 			head := []byte{0x82, recvType, 0x5a, 0x40, 0x00, 0x00, 0x00}
 			_ = peer.send(id, peerResp, head)
 			sent := len(head)
-			chunk := make([]byte, 60000)
+			// the size of the continuation segments is a knob like any other (own stream of draws):
+			// a full segment (65535), one byte less, and smaller ones
+			csz := []int{60000, 65535, 65534, 32768, 65535, 9000}[rt.Choose("op.x", 6)]
+			if csz < 30000 && bound > 400000 {
+				csz = 65535
+			}
+			chunk := make([]byte, csz)
+			rt.Hit(fmt.Sprintf("bp.endless-chunk-%d", csz))
 			for sent < bound+300000 {
 				if err := peer.send(id, peerResp, chunk); err != nil {
 					break
